@@ -8,6 +8,10 @@ PROPS = {
     'C08': 'masking applies exactly the ISO pattern, only to the encoding region',
     'C09': 'automatic mode is the most compact mode',
     'C14': 'building is a pure function of input and options',
+    'C03': 'function patterns and geometry',
+    'C04': 'format/version information and reported parameters',
+    'C11': 'automatic mask minimises the documented penalty',
+    'C15': 'module type labels match ISO regions',
 }
 
 
@@ -67,6 +71,22 @@ MANIFEST_META = {
         'text': 'Verus proves best_encoding(input) == Numeric iff all bytes are digits (incl. empty), Alphanumeric iff all are in the 45-character set (written out from ISO Table 5) and not all digits, Byte otherwise, for slices of any length; ascii_to_alphanumeric/ascii_to_digit are proved total on the chosen mode (their panic arms are unreachable) and QRCode::new uses forced.unwrap_or(best).',
         'note': 'Trusted: Verus/Z3, extraction rules (P1 slice loops, H1 hoisting of the two nested fns).',
     },
+    'C03': {
+        'text': 'Verus proves that default::create_matrix(v) returns, for each of the 40 versions, a matrix of side 17+4v whose every module equals the ISO blank symbol (finder patterns with separators, timing, Annex E alignment patterns - incl. the lemma that no used centre overlaps a finder -, dark module, version information bits) and that every later stage (format info, masking) changes only what its contract allows; the array tail outside the square is an invariant (tail_default in QRCode::wf).',
+        'note': 'placement::place_on_matrix_data is an ASSUMED contract (it may only change value bits of Data modules). Alignment tables come from the qrcode-0.12 transcription of Annex E.',
+    },
+    'C04': {
+        'text': 'Verus proves ecm_to_format_information == BCH(15,5)(level,mask) xor 0x5412 and Version::information == BCH(18,6)(version) against GF(2) polynomial division specs for all 32/34 words; that create_matrix_format_info / create_matrix_version_info put bit k at the ISO coordinates (both copies) and nothing else changes; that place_on_matrix writes the format word of the same mask it applies and reports; that QRCode::new reports level (default Q), mode, version, size truthfully.',
+        'note': 'placement::create_matrix (the struct-update that sets mode/ecl/version) is still an ASSUMED contract; place_on_matrix_data assumed.',
+    },
+    'C11': {
+        'text': 'Verus proves the selection loop of place_on_matrix: with no mask forced the emitted mask k minimises cand_penalty(placed, k) = documented penalty (declarative spec: runs, 1011101 windows, 2x2 blocks, dark ratio) of pattern k applied to the placed matrix, over all 8 patterns; a forced mask overrides. The call-site obligation that columns are scored on the transpose of the very candidate is where the stale-transpose defect of the original code was found (fixed: see known_findings.txt).',
+        'note': 'score::score and its helpers are an ASSUMED contract (r == iso_penalty(qr) given a true transpose): the scoring arithmetic itself is not yet verified.',
+    },
+    'C15': {
+        'text': 'Same obligations as C03 restricted to labels: for every version and coordinate the label produced by create_matrix is iso_region(v,y,x), and placement/masking/format stages are proved (or, for place_on_matrix_data, assumed) not to change any label.',
+        'note': 'The count identity #Data == 8*total+remainder is not yet mechanised. place_on_matrix_data assumed.',
+    },
     'C14': {
         'category': 'other',
         'text': 'Contract part: every QRBuilder setter is proved to write exactly its field and keep all others (last value wins); build(&self) cannot change the builder and its result satisfies a postcondition over the final field values only. Structural part: a scan of /repo/src for static mut / interior mutability / globals / time / randomness must be empty. No schedule exploration exists in this technique family.',
@@ -76,7 +96,7 @@ MANIFEST_META = {
 
 _NYB = 'not yet built in this round (work in progress; will be claimed or given a final reason)'
 NOT_APPLICABLE = {
-    'C01': _NYB, 'C02': _NYB, 'C03': _NYB, 'C04': _NYB, 'C07': _NYB,     'C10': _NYB, 'C11': _NYB, 'C15': _NYB, 'C17': _NYB, 'C18': _NYB,
+    'C01': _NYB, 'C02': _NYB, 'C07': _NYB,     'C10': _NYB, 'C17': _NYB, 'C18': _NYB,
     'C12': 'SVG text is built with format!/String::push_str/join and function-pointer calls; Verus has no format!/string-content reasoning and Kani on String code here is prohibitive (4 symbolic bytes > 20 min): no contract within reach can express it',
     'C13': 'pixels come out of usvg/resvg/tiny-skia/png (external crates, floating-point rasterisation); no repository function whose contract could state them and no verifier here reaches those crates',
     'C16': 'terminal renderer builds a String of multi-byte chars via push/push_str/format!; same limits as C12',
